@@ -19,10 +19,11 @@ const (
 	SgUnrelatedSelf // unrelated self-signed certificate embedded
 	SgFlipSig
 	SgFlipTBS
+	SgSiblingIssuerName // sibling without OCSPSigning EKU whose subject DN equals the issuer's
 	nSigners
 )
 
-var signerNames = []string{"issuer", "delegate_ok", "self_delegated", "sibling_no_eku", "delegate_other_ca", "unrelated_key", "unrelated_selfsigned_embedded", "sig_flipped", "tbs_flipped"}
+var signerNames = []string{"issuer", "delegate_ok", "self_delegated", "sibling_no_eku", "delegate_other_ca", "unrelated_key", "unrelated_selfsigned_embedded", "sig_flipped", "tbs_flipped", "sibling_with_issuer_name"}
 
 // Serial kinds of a response.
 const (
@@ -125,7 +126,8 @@ type OCSPContent struct {
 	Reason     int
 	InvKind    int
 	ByName     bool
-	RevAgo     int // revocation time = now - RevAgo hours
+	RevAgo     int  // revocation time = now - RevAgo hours
+	InvOnAny   bool // the invalidityDate single extension is also attached to Good / Unknown answers (where it means nothing)
 }
 
 func (c OCSPContent) String() string {
@@ -136,6 +138,8 @@ func (c OCSPContent) String() string {
 	s := fmt.Sprintf("%s/signer=%s/serial=%s/next=%s", st, signerNames[c.Signer], serialKindNames[c.SerialKind], nextKindNames[c.NextKind])
 	if c.Status == StRevoked {
 		s += fmt.Sprintf("/reason=%d/inv=%s", c.Reason, invNames[c.InvKind])
+	} else if c.InvOnAny {
+		s += "/meaningless_inv=" + invNames[c.InvKind]
 	}
 	return s
 }
